@@ -20,6 +20,7 @@ import (
 	"strings"
 	"sync"
 	"testing"
+	"unsafe"
 
 	"github.com/Shopify/sarama/internal/vfcore"
 	"github.com/rcrowley/go-metrics"
@@ -500,8 +501,120 @@ func vfRunC09(ci interface{}, r *vfcore.Rec) *vfcore.Failure {
 			deferred = def2
 		}
 	}
+	// ---- O5: the nested version stamps are derived state
+	// Sub-structures of some bodies carry a copy of the body's version (fetchRequestBlock,
+	// AclFilter, ...). The public builders stamp it at the time of the call (AddBlock before
+	// Version is set leaves 0 in the block) and the decoders stamp it from the version they are
+	// given, so a value the application built in another order of calls differs from the
+	// decoded one in those stamps only. encode(value, v) must not depend on them: a deep copy of
+	// the round-tripped value with every such stamp replaced has to encode to the same bytes.
+	if f := vfCheckStamps(d, b, v, what, b1, eqOpts, r); f != nil {
+		return fail(f)
+	}
 	if deferred != nil {
 		return fail(deferred)
+	}
+	return nil
+}
+
+// vfStampExempt names the struct types whose Version field is data of the wire format
+// (the magic byte of a batch / message), not a copy of the enclosing body's version.
+var vfStampExempt = map[string]bool{"RecordBatch": true, "Message": true, "MessageSet": true, "Records": true, "Record": true, "MessageBlock": true}
+
+// vfPerturbStamps walks below the top-level struct and overwrites every integer field named
+// Version / version with a value different from v; it returns the paths it changed.
+func vfPerturbStamps(rv reflect.Value, depth int, path string, d *vfDraws, v int16, out *[]string) {
+	switch rv.Kind() {
+	case reflect.Ptr, reflect.Interface:
+		if !rv.IsNil() {
+			vfPerturbStamps(rv.Elem(), depth, path, d, v, out)
+		}
+	case reflect.Slice, reflect.Array:
+		for i := 0; i < rv.Len(); i++ {
+			vfPerturbStamps(rv.Index(i), depth, path+"[]", d, v, out)
+		}
+	case reflect.Map:
+		it := rv.MapRange()
+		for it.Next() {
+			mv := it.Value()
+			if mv.Kind() == reflect.Ptr || mv.Kind() == reflect.Map || mv.Kind() == reflect.Slice || mv.Kind() == reflect.Interface {
+				vfPerturbStamps(mv, depth, path+"{}", d, v, out)
+			}
+		}
+	case reflect.Struct:
+		if vfStampExempt[rv.Type().Name()] {
+			return
+		}
+		for i := 0; i < rv.NumField(); i++ {
+			f := rv.Field(i)
+			name := rv.Type().Field(i).Name
+			if !f.CanAddr() {
+				continue
+			}
+			f = reflect.NewAt(f.Type(), unsafe.Pointer(f.UnsafeAddr())).Elem()
+			if depth > 0 && (name == "Version" || name == "version") {
+				switch f.Kind() {
+				case reflect.Int, reflect.Int8, reflect.Int16, reflect.Int32, reflect.Int64:
+					nv := int64(0)
+					switch d.vfIntn(3) {
+					case 0:
+						nv = 0
+					case 1:
+						nv = int64(v) - 1
+					default:
+						nv = int64(d.vfIntn(13))
+					}
+					if nv == int64(v) {
+						nv = int64(v) + 1
+					}
+					f.SetInt(nv)
+					*out = append(*out, path+"."+rv.Type().Name()+"."+name)
+					continue
+				}
+			}
+			vfPerturbStamps(f, depth+1, path+"."+name, d, v, out)
+		}
+	}
+}
+
+func vfCheckStamps(d *vfDraws, b *vfBody, v int16, what string, b1 []byte, eqOpts vfEqOpts, r *vfcore.Rec) *vfcore.Failure {
+	if b.Name == "request" {
+		return nil
+	}
+	w := b.vfNew(v)
+	if err, pf := vfSafeRealDecode(w, b1, v, what+" (copy for the stamp check)"); pf != nil || err != nil {
+		return nil // judged by O1 already
+	}
+	var changed []string
+	vfPerturbStamps(reflect.ValueOf(w), 0, "", d, v, &changed)
+	if len(changed) == 0 {
+		return nil
+	}
+	r.Class("o5:stamps-perturbed:" + b.Name)
+	b3, encErr, pf := vfEncodeBoth(w.(encoder), what+" (stamps replaced)")
+	if pf != nil {
+		return pf
+	}
+	if encErr != nil {
+		return vfcore.Failf("o5:stamp-dependent-encoding", "%s: with the nested version stamps %v replaced (as a value built through the public API before Version was set carries them) encode fails: %v", what, changed, encErr)
+	}
+	if len(b3) != len(b1) {
+		return vfcore.Failf("o5:stamp-dependent-encoding", "%s: with the nested version stamps %v replaced encode(value, v%d) writes %d bytes instead of %d: % x vs % x", what, changed, v, len(b3), len(b1), b3, b1)
+	}
+	if bytes.Equal(b3, b1) {
+		return nil
+	}
+	z := b.vfNew(v)
+	err, pf := vfSafeRealDecode(z, b3, v, what+" (stamps replaced)")
+	if pf != nil {
+		return pf
+	}
+	y := b.vfNew(v)
+	if err2, _ := vfSafeRealDecode(y, b1, v, what); err != nil || err2 != nil {
+		return vfcore.Failf("o5:stamp-dependent-encoding", "%s: with the nested version stamps %v replaced the encoding no longer decodes: %v", what, changed, err)
+	}
+	if same, diff := vfEqWith(z, y, eqOpts); !same {
+		return vfcore.Failf("o5:stamp-dependent-encoding", "%s: with the nested version stamps %v replaced the encoding decodes to a different value at %s", what, changed, diff)
 	}
 	return nil
 }
